@@ -117,17 +117,17 @@ struct GC_ReclaimTask *TaskVec_emplace_back(struct TaskVec *v, struct GC_Reclaim
   return t;
 }
 void LCONS(ConsL_t *c, struct TaskQ_Iterator iter, struct TaskQ_Iterator end)
-__CPROVER_requires(__CPROVER_is_fresh(c, sizeof(*c)) && __CPROVER_is_fresh(c->cap_running, sizeof(_Bool)) && g_qn <= g_qcap && g_moved == 0 && g_move_ok && g_size < (1UL << 39))
+__CPROVER_requires(__CPROVER_is_fresh(c, sizeof(*c)) && __CPROVER_is_fresh(c->VF_CAP_lambda_garbage_collector_consume_reclaim_task_1_1, sizeof(_Bool)) && g_qn <= g_qcap && g_moved == 0 && g_move_ok && g_size < (1UL << 39))
 __CPROVER_requires(__CPROVER_pointer_equals(iter._slot, g_qslots) && __CPROVER_pointer_equals(end._slot, g_qslots + g_qn))
-__CPROVER_assigns(*c->cap_running, g_moved, g_move_ok, g_size, g_uninvoked)
+__CPROVER_assigns(*c->VF_CAP_lambda_garbage_collector_consume_reclaim_task_1_1, g_moved, g_move_ok, g_size, g_uninvoked)
 __CPROVER_ensures(g_move_ok && g_moved <= g_qn && g_size == __CPROVER_old(g_size) + g_moved && g_uninvoked == __CPROVER_old(g_uninvoked) + g_moved)
-__CPROVER_ensures(g_moved == g_qn ? *c->cap_running == __CPROVER_old(*c->cap_running) : (!*c->cap_running && g_qslots[g_moved].value.lowest_epoch == 0xFFFFFFFFFFFFFFFFUL))
+__CPROVER_ensures(g_moved == g_qn ? *c->VF_CAP_lambda_garbage_collector_consume_reclaim_task_1_1 == __CPROVER_old(*c->VF_CAP_lambda_garbage_collector_consume_reclaim_task_1_1) : (!*c->VF_CAP_lambda_garbage_collector_consume_reclaim_task_1_1 && g_qslots[g_moved].value.lowest_epoch == 0xFFFFFFFFFFFFFFFFUL))
 ;
 size_t TaskQ_try_pop_n__0_0_lambda_garbage_collector_consume_reclaim_task_1_void(struct TaskQ *q, ConsL_t *cb, unsigned long num) {
   g_qn = nondet_u64(); __CPROVER_assume(g_qn <= num && g_qn <= g_qcap); g_moved = 0;
   struct TaskQ_Iterator b, e; b._slot = g_qslots; e._slot = g_qslots + g_qn;
   LCONS(cb, b, e);
-  if (!*cb->cap_running) g_stop_seen = 1;
+  if (!*cb->VF_CAP_lambda_garbage_collector_consume_reclaim_task_1_1) g_stop_seen = 1;
   return g_qn;
 }
 #else
@@ -137,7 +137,7 @@ static void vf_havoc_consume(void) { }
 //@  VF_REBASE(@p1:iter@._slot, g_qslots)
 //@  __CPROVER_assigns(@p1:iter@._slot, g_moved, g_move_ok, g_size, g_uninvoked)
 //@  __CPROVER_loop_invariant(g_moved <= g_qn && QS_AT(@p1:iter@._slot, g_moved) && QS_AT(@p2:end@._slot, g_qn) && g_move_ok && g_size == __CPROVER_loop_entry(g_size) + g_moved && g_uninvoked == __CPROVER_loop_entry(g_uninvoked) + g_moved)
-//@  __CPROVER_loop_invariant(*self->cap_running == __CPROVER_loop_entry(*self->cap_running))
+//@  __CPROVER_loop_invariant(*self->VF_CAP_lambda_garbage_collector_consume_reclaim_task_1_1 == __CPROVER_loop_entry(*self->VF_CAP_lambda_garbage_collector_consume_reclaim_task_1_1))
 //@  __CPROVER_decreases(g_qn - g_moved)
 //@end
 #endif
